@@ -15,6 +15,7 @@ import (
 	"encoding/json"
 	"fmt"
 	"net/http"
+	"os"
 	"net/url"
 	"path/filepath"
 	"reflect"
@@ -480,9 +481,9 @@ func c15Faults(c *vfeng.Ctx, hist []string) (string, string) {
 					s.w.state.db.Close()
 					s.w.state.cacheDB.Close()
 					var e error
-					s.w.state.db, e = sql.Open(vfSQLDriver, filepath.Join(s.w.dir, profileDBFilename))
+					s.w.state.db, e = initFileDBSQLite(filepath.Join(s.w.dir, profileDBFilename), nil)
 					vfMust(e)
-					s.w.state.cacheDB, e = sql.Open(vfSQLDriver, filepath.Join(s.w.dir, cachedDBFilename))
+					s.w.state.cacheDB, e = initFileDBSQLite(filepath.Join(s.w.dir, cachedDBFilename), nil)
 					vfMust(e)
 				}
 				got := c15Read(s.w.state.cacheDB, false)
@@ -502,6 +503,104 @@ func c15Faults(c *vfeng.Ctx, hist []string) (string, string) {
 		}
 	}
 	return "", ""
+}
+
+// c15Volume: the same "previous or new content, never a mixture" rule for a data
+// set that does not fit the page cache of one database connection (sqlite: 2 MB):
+// 24 users with 160 kB profiles, all of them changed and half of them removed
+// before the synchronisation that fails.  A fault is injected at the first, the
+// last four and every 9th SQL operation of the source and of the destination
+// connection, as an error and as a crash.
+func c15Volume(c *vfeng.Ctx) {
+	const users, blob = 24, 160 << 10
+	prof := func(i, version int) *userProfile {
+		name := strings.Repeat(fmt.Sprintf("%02d-%d-", i, version), blob/5)
+		return &userProfile{U2fAuthData: map[int64]*u2fAuthData{1: {Name: name, Enabled: true}}, TOTPAuthData: map[int64]*totpAuthData{}}
+	}
+	build := func() *vfWorld {
+		w := vfNewWorld(vfOpts{CertBackends: []string{"U2F"}, WebUIBackends: []string{"U2F"}})
+		for i := 0; i < users; i++ {
+			vfMust(w.state.SaveUserProfile(fmt.Sprintf("user%02d", i), prof(i, 1)))
+		}
+		vfMust(copyDBIntoSQLite(w.state.db, w.state.cacheDB, "sqlite"))
+		for i := 0; i < users; i++ {
+			if i%2 == 0 {
+				vfMust(w.state.DeleteUserProfile(fmt.Sprintf("user%02d", i)))
+			} else {
+				vfMust(w.state.SaveUserProfile(fmt.Sprintf("user%02d", i), prof(i, 2)))
+			}
+		}
+		return w
+	}
+	ref := build()
+	old := c15Read(ref.state.cacheDB, false)
+	vfFaultArm("primary", 0, "")
+	vfFaultArm("cache", 0, "")
+	err := copyDBIntoSQLite(ref.state.db, ref.state.cacheDB, "sqlite")
+	nP, _ := vfFaultCount("primary")
+	nC, _ := vfFaultCount("cache")
+	newc := c15Read(ref.state.cacheDB, false)
+	ref.Close()
+	vfFaultReset()
+	if err != nil || old.equal(newc) || len(old.Profiles) != users {
+		c.Res.HarnessErr = fmt.Sprintf("large data set: reference synchronisation unusable (err=%v, old has %d profiles)", err, len(old.Profiles))
+		return
+	}
+	for _, db := range []string{"primary", "cache"} {
+		n := nP
+		if db == "cache" {
+			n = nC
+		}
+		for k := 1; k <= n; k++ {
+			if !(k == 1 || k > n-4 || k%9 == 0) {
+				continue
+			}
+			for _, kind := range []string{"error", "crash"} {
+				w := build()
+				vfFaultArm("primary", 0, "")
+				vfFaultArm("cache", 0, "")
+				vfFaultArm(db, k, kind)
+				serr := copyDBIntoSQLite(w.state.db, w.state.cacheDB, "sqlite")
+				_, log := vfFaultCount(db)
+				opName := ""
+				if k-1 < len(log) {
+					opName = log[k-1]
+				}
+				vfFaultReset()
+				if kind == "crash" {
+					// the process is gone: what the next process finds is the files as they
+					// are on disk now, a hot rollback journal included, and no lock.  (The
+					// dying connection cannot be closed cleanly inside this process - its
+					// unfinished statements keep the file lock - so the files are copied.)
+					after := filepath.Join(w.dir, "after-crash")
+					vfMust(os.MkdirAll(after, 0o700))
+					for _, suffix := range []string{"", "-journal", "-wal", "-shm"} {
+						if b, err := os.ReadFile(filepath.Join(w.dir, cachedDBFilename+suffix)); err == nil {
+							vfMust(os.WriteFile(filepath.Join(after, cachedDBFilename+suffix), b, 0o600))
+						}
+					}
+					reopened, e := initFileDBSQLite(filepath.Join(after, cachedDBFilename), nil)
+					vfMust(e)
+					w.state.cacheDB = reopened
+				}
+				got := c15Read(w.state.cacheDB, false)
+				w.Close()
+				c.Eval(1)
+				c.Count("fault_runs", 1)
+				pt := map[string]interface{}{"part": "volume", "db": db, "k": k, "kind": kind}
+				if !got.equal(old) && !got.equal(newc) {
+					c.Violate(fmt.Sprintf("C15|torn-sync|copyDBIntoSQLite|%s-side-%s|large-data-set", map[string]string{"primary": "source", "cache": "destination"}[db], kind),
+						fmt.Sprintf("%d users x %d kB: %s injected at operation %d of %d (%s) of the %s connection (sync returned err=%v): the cache holds %d readable profiles, neither the previous %d nor the new %d", users, blob>>10, kind, k, n, opName, db, serr, len(got.Profiles), len(old.Profiles), len(newc.Profiles)), pt)
+					return
+				}
+				cls := "old"
+				if got.equal(newc) {
+					cls = "new"
+				}
+				c.Class(fmt.Sprintf("volume-fault|%s|%s|cache=%s", db, kind, cls), pt)
+			}
+		}
+	}
 }
 
 // ---- (d) outage: differential against a healthy twin
@@ -690,7 +789,7 @@ func init() {
 	vfRegister(&vfeng.Check{
 		ID:    "C15",
 		Level: "fault_enumeration",
-		Rule:  "(a') three users whose names differ only in case: profiles, signed records, user list and deletion in the primary and, after a synchronisation, in the cache; (a'') an error injected at EVERY SQL operation of SaveUserProfile (existing and new user), DeleteUserProfile, UpsertSigned and DeleteSigned on the primary: success reported => new content stored, failure => previous or new content; (a) every profile shape (empty, nil/empty maps, 1-3 U2F registrations with real attestation certificates, TOTP entries, pending registration/TOTP secret, bootstrap OTP, WebAuthn credential + session data, 10 kB display name) saved, read back from the primary, synchronised and read back from the cache during an outage; (b) BFS with canonical-state deduplication over {save/delete user, upsert/delete signed record, tick 97h, sync} for two users on the real storage functions, comparing cache and primary after every completed synchronisation; (c) for every synchronisation reached at history depth <= 3 (thorough 4): a fault (error, and crash = connection abort + reopen) injected at EVERY SQL operation of copyDBIntoSQLite on the source and on the destination connection - cache content must equal the previous or the complete new content; (d) every route x {GET,POST} with an admitted credential against a healthy twin, a twin whose primary is unreachable and a twin whose primary does not answer reads but takes writes (outage ending inside the request), and for authentication routes a twin whose primary refuses every operation at once with the production read timeout (virtual time advanced while the request waits); plus deployments with self-service bootstrap OTP: login of a user with/without devices via form and basic-auth in the three modes, with a recording mail sender (differential oracle)",
+		Rule:  "(f) a data set larger than the page cache of one sqlite connection (24 users x 160 kB, all changed, half removed): a fault at the first, the last four and every 9th SQL operation of the synchronisation on either connection, as error and as crash, leaves the cache at its previous or its new content; the databases are opened through the repository's own initFileDBSQLite; (a') three users whose names differ only in case: profiles, signed records, user list and deletion in the primary and, after a synchronisation, in the cache; (a'') an error injected at EVERY SQL operation of SaveUserProfile (existing and new user), DeleteUserProfile, UpsertSigned and DeleteSigned on the primary: success reported => new content stored, failure => previous or new content; (a) every profile shape (empty, nil/empty maps, 1-3 U2F registrations with real attestation certificates, TOTP entries, pending registration/TOTP secret, bootstrap OTP, WebAuthn credential + session data, 10 kB display name) saved, read back from the primary, synchronised and read back from the cache during an outage; (b) BFS with canonical-state deduplication over {save/delete user, upsert/delete signed record, tick 97h, sync} for two users on the real storage functions, comparing cache and primary after every completed synchronisation; (c) for every synchronisation reached at history depth <= 3 (thorough 4): a fault (error, and crash = connection abort + reopen) injected at EVERY SQL operation of copyDBIntoSQLite on the source and on the destination connection - cache content must equal the previous or the complete new content; (d) every route x {GET,POST} with an admitted credential against a healthy twin, a twin whose primary is unreachable and a twin whose primary does not answer reads but takes writes (outage ending inside the request), and for authentication routes a twin whose primary refuses every operation at once with the production read timeout (virtual time advanced while the request waits); plus deployments with self-service bootstrap OTP: login of a user with/without devices via form and basic-auth in the three modes, with a recording mail sender (differential oracle)",
 		Assumptions: []string{"only the sqlite flavour of the storage layer is executed (no PostgreSQL in the sandbox)", "a crash is modelled as loss of the connection's uncommitted work followed by reopening the files; sqlite's own atomic-commit machinery is trusted", "an outage is modelled as in the repository's own tests: the primary's read timeout has already elapsed (remoteDBQueryTimeout=0) and every statement on it fails"},
 		Bounds: func(tier string) map[string]interface{} {
 			d, fd := 4, 3
@@ -699,7 +798,7 @@ func init() {
 			}
 			return map[string]interface{}{"history_depth": d, "fault_history_depth": fd}
 		},
-		Shards: func(tier string) int { return 9 },
+		Shards: func(tier string) int { return 10 },
 		Run: func(c *vfeng.Ctx) {
 			d, fd := 4, 3
 			if c.Thorough() {
@@ -715,7 +814,13 @@ func init() {
 					return
 				}
 			}
-			sub := &vfeng.Ctx{Check: c.Check, Tier: c.Tier, Seed: c.Seed, Shard: c.Shard - 1, NShards: c.NShards - 1, Res: c.Res, Deadline: c.Deadline}
+			if c.Shard == 1 || c.NShards == 1 {
+				c15Volume(c)
+				if c.NShards > 1 {
+					return
+				}
+			}
+			sub := &vfeng.Ctx{Check: c.Check, Tier: c.Tier, Seed: c.Seed, Shard: c.Shard - 2, NShards: c.NShards - 2, Res: c.Res, Deadline: c.Deadline}
 			if c.NShards == 1 {
 				sub.Shard, sub.NShards = 0, 1
 			}
@@ -736,6 +841,9 @@ func init() {
 			c15WriteFaults(cc)
 			c15Outage(cc)
 			c15OutageSelfService(cc)
+			if len(cc.Res.Violations) == 0 {
+				c15Volume(cc)
+			}
 			if len(cc.Res.Violations) > 0 {
 				return true, cc.Res.Violations[0].Key + " :: " + cc.Res.Violations[0].What
 			}
